@@ -815,6 +815,31 @@ func runSnapshots(s *storeRun, g *certGen, first uint64, initial gpbft.PowerEntr
 		}
 	}
 	s.observe(first, upto+1)
+	// the imported store is a full store: it keeps advancing, and every power table stays derivable across the check-point
+	// that follows the snapshot's end (also when the snapshot ends right before a check-point instance)
+	adv := 0
+	for k := 0; k < 2 && int(upto-first)+1+k < len(stored); k++ {
+		nc := stored[int(upto-first)+1+k]
+		err := h.Put(ctx, nc)
+		code := storeErrCode(err)
+		s.op(fmt.Sprintf("OPut %s %d", s.x.certTerm(nc), code), fmt.Sprintf("put-after-import inst=%d -> %d", nc.GPBFTInstance, code))
+		if err != nil {
+			s.viol("the imported store is observationally identical to the exporter: it admits the exporter's next certificate", "snapshot-imported-store-rejects-successor", err.Error())
+			break
+		}
+		adv++
+	}
+	if adv > 0 {
+		for i := first; i <= upto+uint64(adv)+1; i++ {
+			a, e1 := exporter.GetPowerTable(ctx, i)
+			b, e2 := h.GetPowerTable(ctx, i)
+			if (e1 == nil) != (e2 == nil) || (e1 == nil && !a.Equal(b)) {
+				s.viol("imported store returns the same power table for every instance", "snapshot-power-table", fmt.Sprintf("instance %d after advancing the imported store by %d (snapshot ended at %d, check-point frequency %d): exporter err=%v, imported err=%v", i, adv, upto, s.freq, e1, e2))
+				break
+			}
+		}
+		s.observe(first, upto+uint64(adv)+1)
+	}
 
 	// 2. malformed snapshots must be rejected (block level, compared with the model; byte level, monitor only)
 	good := stored[:upto-first+1]
